@@ -64,7 +64,7 @@ func Harness_C30_claims_window() {
 
 // only bits carrying the application prefix are granted, with the prefix removed
 func Harness_C30_strip_bits() {
-	n := v.Choice(5)
+	n := v.Choice(8) // 0..7 bytes: long enough for a foreign application whose name extends ours ("shx:ab")
 	bit := v.NondetString(n)
 	got := stripFullBit(bit, "sh")
 	if n >= 3 && bit[0] == 's' && bit[1] == 'h' && bit[2] == ':' {
